@@ -112,7 +112,7 @@ def gen_terms(r, k, style=None):
     if style == 'dense': codes = list(range(0, k)) if r.random() < 0.3 else list(range(97, 97 + k))
     elif style == 'ascii': codes = [ord(n) for n in names]
     elif style == 'gaps': codes = sorted(r.sample(range(1, 40), k))
-    else: codes = sorted(r.sample([3, 300, 20000, 70000, 1000000, 5, 17, 4242], k))
+    else: codes = sorted(r.sample([3, 300, 20000, 70000, 1000000, 5, 17, 4242] + ([2147483647, 2147483646] if r.random() < 0.2 else []), k))
     return list(zip(names, codes))
 
 
@@ -709,7 +709,7 @@ def gen_def_grammar(r):
     terms = []
     for _ in range(r.randint(0, 4)):
         nm = r.choice(tnames[:3]) if r.random() < 0.85 else r.choice(tnames)
-        code = r.choice([97, 98, 99, 100, 5, 0, 300, 70000]) if r.random() < 0.9 else -r.randint(1, 3)
+        code = r.choice([97, 98, 99, 100, 5, 0, 300, 70000, 2147483647]) if r.random() < 0.9 else -r.randint(1, 3)
         terms.append((nm, code))
     if r.random() < 0.8:
         seen = set(); sc = set(); t2 = []
@@ -863,6 +863,13 @@ def gen_history_cases(seed, count, maxops=40):
         pool += [bad_variant(r, pool[0]), gen_def_grammar(r)]
         lines = ['case H-%d-%d history' % (seed, i)]
         for gid, g in enumerate(pool): lines += g.text(gid)
+        # descriptions: a good one and rejected ones (syntax error, invalid character, conflicting codes)
+        dorder, _, _ = gen_descr_ast(r)
+        dtext = render_descr(r, dorder)
+        y = r.random()
+        dbad = dtext[:r.randint(0, len(dtext))].encode('latin1') if y < 0.4 else inject_invalid(r, dtext) if y < 0.8 else b"TERM a = 1 a = 2; S : a;"
+        lines.append('text 0 %s' % dtext.encode('latin1').hex())
+        lines.append('text 1 %s' % dbad.hex())
         n = 0
         def op(s):
             nonlocal n
@@ -882,7 +889,11 @@ def gen_history_cases(seed, count, maxops=40):
                 op('create %d' % h); alive[h] = True; defined[h] = None; nparse[h] = 0; freed[h] = set()
                 continue
             x = r.random()
-            if x < 0.22:
+            if x < 0.05:
+                # (re)definition by a description; a rejected one leaves the object undefined
+                tid = r.choice([0, 1, 1])
+                op('descr %d %d %d' % (h, tid, r.randint(0, 1))); defined[h] = None
+            elif x < 0.22:
                 gid = r.choice([0, 0, 1, 1, 2, 3])
                 op('def %d %d' % (h, gid)); defined[h] = gid
             elif x < 0.40:
@@ -898,7 +909,7 @@ def gen_history_cases(seed, count, maxops=40):
                 if y < 0.12 and g.terms:
                     cs = sorted(c for _, c in g.terms)
                     bad = r.choice([cs[0] + 1 if len(cs) > 1 and cs[1] > cs[0] + 1 else cs[-1] + 1, cs[-1] + 5, max(0, cs[0] - 1) if cs[0] > 0 else cs[-1] + 2, 123456])
-                    if bad not in cs: codes.insert(r.randint(0, len(codes)), bad)
+                    if bad not in cs and bad <= 2147483647: codes.insert(r.randint(0, len(codes)), bad)   # token codes are ints
                 ak, fk = ('user', 'user')
                 if y > 0.9: ak, fk = r.choice([('null', 'user'), ('null', 'null'), ('user', 'null')])
                 if nparse[h] < 60:
